@@ -180,12 +180,12 @@ func (w *Writer) Close(m Meta) error {
 		}
 		var sb strings.Builder
 		fmt.Fprintf(&sb, "From OIDC Require Import Lib %s.\n", w.spec)
-		sb.WriteString("Definition cases : list (nat * input * observed) := [\n")
+		sb.WriteString("Definition cases : list (N * input * observed) := [\n")
 		for k, c := range sel[i:j] {
 			if k > 0 {
 				sb.WriteString(";\n")
 			}
-			fmt.Fprintf(&sb, " (N.to_nat %d%%N, %s, %s)", c.ID, c.Input, c.Observed)
+			fmt.Fprintf(&sb, " (%d%%N, %s, %s)", c.ID, c.Input, c.Observed)
 		}
 		sb.WriteString("\n].\n")
 		sb.WriteString("Definition M := Eval vm_compute in case_mismatches cases. Print M.\n")
